@@ -133,6 +133,10 @@ let bd_case id c =
   let people = bool_of_sx (List.hd (args (field "people" c))) in
   let track = (match field_opt "track" c with Some t -> bool_of_sx (List.hd (args t)) | None -> false) in
   let rle = (match field_opt "rle" c with Some t -> bool_of_sx (List.hd (args t)) | None -> false) in
+  (* the largest cases (10^6 lines: the extracted take / drop go through unary nat; 2^16 files: association lists) are
+     judged by the implementation-only oracles alone *)
+  let nomodel = (match field_opt "nomodel" c with Some t -> bool_of_sx (List.hd (args t)) | None -> false) in
+  if nomodel then count "cases_without_model";
   let ops = args (field "ops" c) and obs = args (field "obs" c) in
   let pf0 = !n_propfail in
   let st = ref bd_init in
@@ -181,7 +185,8 @@ let bd_case id c =
         end;
         let failed = (r = "err" || r = "panic") in
         let mp = Array.of_list !st.privs in
-        if Array.length mp = Array.length log' then
+        if nomodel then ()
+        else if Array.length mp = Array.length log' then
           Array.iteri (fun k s ->
             if not (failed && k = target) then begin
               count "copy_states_compared";
@@ -199,8 +204,9 @@ let bd_case id c =
         | AStep _, ("ok" | "err" | "panic") -> count "steps"; frame_oracle id here "copy" !prev cur (Some target)
         | _, _ -> frame_oracle id here "copy" !prev cur None);
       (* --- the model --- *)
-      let (st', out) = bd_do people track a !st in
       let failed = (r = "err" || r = "panic") in
+      if nomodel then begin prev := cur; logical := log'; if failed then stop := true end else begin
+      let (st', out) = bd_do people track a !st in
       (match out, r with
        | Some BOk, "ok" | Some BErr, "err" | Some BPanic, "panic" | None, ("fork" | "skip") -> ()
        | _, _ -> mismatch id (Printf.sprintf "%s result: implementation %s, model %s" here r
@@ -223,6 +229,7 @@ let bd_case id c =
       end;
       st := st'; prev := cur; logical := log';
       if failed then stop := true
+      end
       end
       end
     end) obs;
